@@ -1,5 +1,5 @@
 CONSTANTS XMax = 5 YS = {0, 1, 7} MaxAny = 2 MaxDots = 4
 INIT Init
 NEXT Next
-INVARIANTS Emit SmallClauses PieceEncloses
+INVARIANTS Emit SmallClauses PieceEncloses ScalarForms
 CHECK_DEADLOCK FALSE
